@@ -2,7 +2,7 @@
 import re
 
 ID = "C11"
-EXTRA_PROPS = ["PrinterFnsTables", "CursorFnsTables"]   # LinePrinter reset / print_char_raw branches / tab rule as TRANSLATED from src/util.rs = the model (Props/PrinterFnsTables.lean)
+EXTRA_PROPS = ["PrinterFnsTables", "CursorFnsTables", "ReshapeFnsTables"]   # LinePrinter reset / print_char_raw branches / tab rule as TRANSLATED from src/util.rs = the model (Props/PrinterFnsTables.lean)
 N_QUICK, N_THOROUGH = 2500, 120000
 STRICT_MODEL = True
 PARALLEL = 4
@@ -461,3 +461,4 @@ def shrink_candidates(case):
     return out
 
 TECHNIQUE += ' + translator tie: LinePrinter::reset / print_char_raw branches / tab rule (src/util.rs) and the row mapping of Draw::draw translated and proved equal to the model (Props/PrinterFnsTables.lean, CursorFnsTables.lean)'
+TECHNIQUE += '; reshape_string translated and proved to return the value of LinePrinter.reshapeString wherever that says no panic (reshape_is_printer_model, Props/ReshapeFnsTables.lean)'
